@@ -28,7 +28,8 @@ from hsverif.c16_mon import Mon, Tier  # noqa: E402  (probe import put HS_REPO o
 PID = "C16"
 LEVEL = "exploration"
 RULE = (
-    "Generated client programs (2-4 client processes plus optional CacheWarmer, explicit op lists with start offsets "
+    "Generated client programs (2-4 client processes plus optional CacheWarmer - for CachedStore working on the real cache during the run, "
+    "restarted by `warm` ops -; a `longhot` profile with 300-600 accesses to one key; explicit op lists with start offsets "
     "and inter-op gaps on a sub-millisecond grid so that operations of different clients overlap) run inside real "
     "Simulations under EngineProbe caps against: CachedStore x nine eviction policies x write-through/write-back, "
     "capacity 1-3 over 4-6 keys, ops get/put/delete/invalidate/invalidate_all/flush/direct-backing-write+invalidate; "
@@ -185,6 +186,13 @@ def make_client_classes():
                 gap, kind = op[0], op[1]
                 key = self.keys[op[2]] if len(op) > 2 and op[2] is not None else None
                 yield gap
+                if kind == "warm":
+                    # (re)start the CacheWarmer from inside the run: its event is stamped with the current time
+                    w = self.ctx.warmer
+                    if w is not None:
+                        mon.res.count("warm_rounds_started")
+                        yield 0.0, [w.start_warming()]
+                    continue
                 val = op_value(self.cid, j, op) if kind in WRITE_KINDS else None
                 yield from mon.do(self.cid, kind, key, val)
             self.ctx.remaining -= 1
@@ -422,7 +430,7 @@ def gen_cached(rng: random.Random, tier: str) -> dict:
     nkeys = rng.randint(4, 6)
     cap = rng.randint(1, 3) if rng.random() < 0.9 else nkeys
     wt = rng.random() < 0.5
-    profile = rng.choice(["mixed", "mixed", "race", "sequential", "overlap"])
+    profile = rng.choices(["mixed", "race", "sequential", "overlap", "longhot"], [36, 18, 18, 20, 6])[0]
     nclients = rng.randint(2, 4)
     hot = rng.randrange(nkeys)
     weights = {"get": 36, "put": 30, "delete": 8, "inv": 7, "invall": 2, "flush": 6 if not wt else 1, "bput": 4, "bdel": 1}
@@ -454,14 +462,42 @@ def gen_cached(rng: random.Random, tier: str) -> dict:
         for c in clients:
             c["start"] = round(t, 6)
             t += 0.05 + len(c["ops"]) * 0.03
+    if profile == "longhot":
+        # one very hot key: 300-600 accesses to it while a few cold residents sit in the cache with a single access,
+        # then a few insertions of new keys (evictions); every policy; the policy-vs-held key sets are compared after
+        # every delivery.  Long-run bookkeeping of the policies (counter aging, clock hands, queues) is what this reaches.
+        cap = rng.randint(2, 3)
+        cold = [k for k in range(nkeys) if k != hot]
+        rng.shuffle(cold)
+        ops = [[0.0, rng.choice(["get", "put"]), k] for k in cold[: cap - 1]]
+        ops.append([0.0, "put", hot])
+        for _ in range(rng.randint(300, 600)):
+            ops.append([0.0, "get" if rng.random() < 0.93 else "put", hot])
+        for k in cold[cap - 1 :] + cold[:1]:
+            ops.append([0.0005, rng.choice(["get", "put"]), k])
+        ops += [[0.0, "get", hot], [0.0, "get", cold[0]]]
+        clients = [{"start": 0.0, "ops": ops}] + clients[: rng.randint(0, 1)]
+        if len(clients) > 1:
+            clients[1]["start"] = round(0.2 + clients[1]["start"], 7)
+            clients[1]["ops"] = [op for op in clients[1]["ops"] if op[1] not in ("invall", "inv", "delete", "bdel", "bput")]
+        lat["cache"] = rng.choice([0.0, 0.0001])
     warmer = None
-    if rng.random() < 0.25:
-        ks = [rng.randrange(nkeys) for _ in range(rng.randint(2, 8))]
-        warmer = {"keys": ks, "rate": rng.choice([100.0, 500.0, 2000.0]), "latency": 0.001}
+    if rng.random() < 0.25 and profile != "longhot":
+        # CacheWarmer working on the real CachedStore DURING the run: several warm rounds started by `warm` client ops,
+        # the hot key several times in the list (other keys in between evict it again), latencies comparable to the write gaps
+        others = [k for k in range(nkeys) if k != hot]
+        ks = []
+        for _ in range(rng.randint(2, 5)):
+            ks.append(hot)
+            if rng.random() < 0.7:
+                ks.append(rng.choice(others))
+        warmer = {"keys": ks, "rate": rng.choice([100.0, 500.0, 2000.0]), "latency": rng.choice([0.001, 0.003, 0.008]), "inside": True}
+        clients[0]["ops"].insert(0, [0.0, "warm", None])
+        for _ in range(rng.randint(1, 3)):
+            c = rng.choice(clients)
+            c["ops"].insert(rng.randrange(len(c["ops"]) + 1), [_gap(rng), "warm", None])
     _sprinkle_values(rng, clients)
     t0_ns = _gen_t0(rng, 0.2)
-    if t0_ns:
-        warmer = None  # CacheWarmer.start_warming() stamps its event before the simulation exists
     return {
         "t0_ns": t0_ns,
         "policy": gen_policy(rng),
@@ -521,10 +557,14 @@ def run_cached(case: dict) -> Result:
             def get(self, key):
                 return mon.do("W", "get", key)
 
-        warmer = CacheWarmer("warmer", cache=WarmView(), keys_to_warm=[keys[i] for i in wspec["keys"]], warmup_rate=wspec["rate"], warmup_latency=wspec["latency"])
+        # "inside": the warmer gets the real CachedStore (whatever API it chooses to use on it is what is tested) and is
+        # (re)started by `warm` client ops during the run; its reads are then not recorded at the client boundary.
+        inside = bool(wspec.get("inside"))
+        warmer = CacheWarmer("warmer", cache=store if inside else WarmView(), keys_to_warm=[keys[i] for i in wspec["keys"]], warmup_rate=wspec["rate"], warmup_latency=wspec["latency"])
         ctx.warmer = warmer
         entities.append(warmer)
-        starts.append(warmer.start_warming())
+        if not inside:
+            starts.append(warmer.start_warming())
     _run_sim(entities, starts, mon, res, t0_ns=case.get("t0_ns", 0))
     if not fin.ran and not res.inconclusive:
         res.inconclusive = "finalizer did not run"
